@@ -202,3 +202,13 @@ PROG += [
 FN += [
     (lints.quantity_or_default, "import time\ndef f(t, fsobj):\n    t.mtime = fsobj.mtime or time.time()\n", "import time\ndef f(t, fsobj):\n    t.mtime = fsobj.mtime if fsobj.mtime is not None else time.time()\n"),
 ]
+
+FN += [
+    (lints.guard_attr_deviates, "def to_wire(u, w):\n    if u.a is not None:\n        w['a'] = u.a\n    if u.b is not None:\n        w['b'] = str(u.b)\n    if u.c is not None:\n        w['c'] = u.c\n    if u.c is not None:\n        w['d'] = u.d.value\n",
+     "def to_wire(u, w):\n    if u.a is not None:\n        w['a'] = u.a\n    if u.b is not None:\n        w['b'] = str(u.b)\n    if u.c is not None:\n        w['c'] = u.c\n    if u.d is not None:\n        w['d'] = u.d.value\n"),
+]
+
+FN += [
+    (lints.unbalanced_peer_args, "class C:\n    def __ge__(self, other):\n        return ver_cmp(self.version, self.revision, other.version, self.revision) >= 0\n",
+     "class C:\n    def __ge__(self, other):\n        return ver_cmp(self.version, self.revision, other.version, other.revision) >= 0\n"),
+]
